@@ -102,9 +102,35 @@ pub struct Outcome {
 	pub result: RunResult,
 	pub panicked: Option<String>,
 	pub hung: bool,
+	/// The run thread was blocked (no CPU use) for BLOCKED_WINDOW_SECS: in a single-threaded run
+	/// nobody can wake it. The thread is leaked; the calling process should end soon.
+	pub blocked: bool,
 }
 
-pub const RUN_WALL_LIMIT_SECS: u64 = 120;
+pub const BLOCKED_WINDOW_SECS: u64 = 20;
+/// Index of the op the run thread is executing (for the report of a blocked run).
+pub static CURRENT_OP: std::sync::atomic::AtomicUsize = std::sync::atomic::AtomicUsize::new(usize::MAX);
+
+fn thread_cpu_ns(t: libc::pthread_t) -> Option<u64> {
+	unsafe {
+		let mut cid: libc::clockid_t = 0;
+		if libc::pthread_getcpuclockid(t, &mut cid) != 0 {
+			return None
+		}
+		let mut ts: libc::timespec = std::mem::zeroed();
+		if libc::clock_gettime(cid, &mut ts) != 0 {
+			return None
+		}
+		Some(ts.tv_sec as u64 * 1_000_000_000 + ts.tv_nsec as u64)
+	}
+}
+
+pub const RUN_WALL_LIMIT_SECS: u64 = 1200;
+/// One op that keeps the thread busy this long is reported as not returning (ordinary ops take
+/// milliseconds, the heaviest seen a few seconds).
+pub const OP_WALL_LIMIT_SECS: u64 = 180;
+/// Current limit (lowered while minimising: a candidate that does not finish is just rejected).
+pub static OP_LIMIT: std::sync::atomic::AtomicU64 = std::sync::atomic::AtomicU64::new(OP_WALL_LIMIT_SECS);
 
 fn run_body(cfg: &RunCfg, ops: &[Op], base: &str) -> RunResult {
 	let live = format!("{}/live0", base);
@@ -121,6 +147,7 @@ fn run_body(cfg: &RunCfg, ops: &[Op], base: &str) -> RunResult {
 	let mut executed = 0;
 	if ex.open_initial() {
 		for (i, op) in ops.iter().enumerate() {
+			CURRENT_OP.store(i, Ordering::Relaxed);
 			ex.exec_op(i, op);
 			executed = i + 1;
 			if !ex.viol.is_empty() || !ex.has_db() {
@@ -192,7 +219,69 @@ pub fn run_once(cfg: &RunCfg, ops: &[Op], base: &str) -> Outcome {
 	// Watchdog (safety net only, never an oracle): a run that does not finish within the wall
 	// clock limit is reported as a harness error and the worker process ends.
 	let t0 = std::time::Instant::now();
+	let pt = {
+		use std::os::unix::thread::JoinHandleExt;
+		h.as_pthread_t()
+	};
+	let mut win_start = std::time::Instant::now();
+	let mut win_cpu = thread_cpu_ns(pt);
+	CURRENT_OP.store(usize::MAX, Ordering::Relaxed);
+	let mut op_seen = usize::MAX;
+	let mut op_start = std::time::Instant::now();
 	while !h.is_finished() {
+		let cur = CURRENT_OP.load(Ordering::Relaxed);
+		if cur != op_seen {
+			op_seen = cur;
+			op_start = std::time::Instant::now();
+		} else if op_start.elapsed().as_secs() > OP_LIMIT.load(Ordering::Relaxed) && cur != usize::MAX {
+			return Outcome {
+				result: RunResult {
+					violations: vec![Violation {
+						prop: crash_prop_for(&cfg.scenario).to_string(),
+						class: "no-return".to_string(),
+						detail: format!("the call of op {cur} has kept the only thread of the run busy for more than {OP_WALL_LIMIT_SECS} s without returning"),
+						op_index: cur,
+					}],
+					stats: Default::default(),
+					fingerprint: 0,
+					counters: Default::default(),
+					ops_executed: 0,
+				},
+				panicked: None,
+				hung: false,
+				blocked: true,
+			}
+		}
+		if win_start.elapsed().as_secs() >= BLOCKED_WINDOW_SECS {
+			let now_cpu = if h.is_finished() { None } else { thread_cpu_ns(pt) };
+			if let (Some(a), Some(b)) = (win_cpu, now_cpu) {
+				if b.saturating_sub(a) < 20_000_000 && !h.is_finished() {
+					let prop = crash_prop_for(&cfg.scenario);
+					let op_index = CURRENT_OP.load(Ordering::Relaxed);
+					return Outcome {
+						result: RunResult {
+							violations: vec![Violation {
+								prop: prop.to_string(),
+								class: "blocked-forever".to_string(),
+								detail: format!(
+									"the call of op {op_index} did not return: the only thread of the run has been blocked without using CPU for {BLOCKED_WINDOW_SECS} s and nobody exists to wake it"
+								),
+								op_index,
+							}],
+							stats: Default::default(),
+							fingerprint: 0,
+							counters: Default::default(),
+							ops_executed: 0,
+						},
+						panicked: None,
+						hung: false,
+						blocked: true,
+					}
+				}
+			}
+			win_start = std::time::Instant::now();
+			win_cpu = now_cpu;
+		}
 		if t0.elapsed().as_secs() > RUN_WALL_LIMIT_SECS {
 			return Outcome {
 				result: RunResult {
@@ -204,6 +293,7 @@ pub fn run_once(cfg: &RunCfg, ops: &[Op], base: &str) -> Outcome {
 				},
 				panicked: None,
 				hung: true,
+				blocked: false,
 			}
 		}
 		std::thread::sleep(std::time::Duration::from_micros(100));
@@ -218,14 +308,7 @@ pub fn run_once(cfg: &RunCfg, ops: &[Op], base: &str) -> Outcome {
 		ops_executed: 0,
 	});
 	if let Some(msg) = &p {
-		let prop = exec::map_property(&cfg.scenario);
-		let prop = match cfg.scenario.as_str() {
-			"crash" => "C02",
-			"power" => "C12",
-			"logfuzz" => "C13",
-			"ioerr" => "C16",
-			_ => prop,
-		};
+		let prop = crash_prop_for(&cfg.scenario);
 		result.violations.push(Violation {
 			prop: prop.to_string(),
 			class: "panic".to_string(),
@@ -233,7 +316,17 @@ pub fn run_once(cfg: &RunCfg, ops: &[Op], base: &str) -> Outcome {
 			op_index: usize::MAX,
 		});
 	}
-	Outcome { result, panicked: p, hung: false }
+	Outcome { result, panicked: p, hung: false, blocked: false }
+}
+
+fn crash_prop_for(scenario: &str) -> &'static str {
+	match scenario {
+		"crash" => "C02",
+		"power" => "C12",
+		"logfuzz" => "C13",
+		"ioerr" => "C16",
+		s => exec::map_property(s),
+	}
 }
 
 fn main() {
